@@ -71,6 +71,8 @@ BASE_TOKENS = [
     # words / text / entities / unicode
     "w", "foo", "a=b", "x", "class=\"c\"", "style='s'", "1", "&amp;", "&lbrace;", "&#91;", "&", "é", "日本", "‎", " ",
     "\U0001F600", "﻿", "\x0b", "\\", "\"", "`", "~~~~", "ISBN 1", "RFC 1",
+    # characters that str.isdigit()/isnumeric() accept but int() does not (and decimal digits of other scripts)
+    "\u00b2", "|\u00b2=", "\u2460=", "|\u0663=", "\uff12", "\u00bd",
 ]
 
 TAG_ATTRS = ["", " class=\"c\"", " a=b c='d' e", " style=\"x:y\"", " name=n", " /", "/"]
@@ -207,6 +209,14 @@ def ladder():
             "<nowiki>" * n + "x" + "</nowiki>" * n,
             "{{#if:" * n + "x" + "|y}}" * n,
         ]
+    # call heads x argument-name shapes (names that look numeric to one string predicate but not to
+    # another, padded, negative, empty) x surroundings: argument fields must keep their documented shape
+    heads = ["{{t", "{{#if:x", "{{#if", "{{#switch:{{{1}}}", "{{lc", "{{PAGENAME", "{{#expr", "{{{a", "[[L", "{{subst:t"]
+    names = ["1", "01", "0", "-1", " 2 ", "\u00b2", "\u2460", "\u0663", "\uff12", "\u00bd", "x", "", "1=2"]
+    for h in heads:
+        for nm in names:
+            close = "}}}" if h.startswith("{{{") else "]]" if h.startswith("[[") else "}}"
+            docs += [f"{h}|{nm}=v{close}", f"* i {h}|a=1|{nm}=q{close} t", f"{h}|{nm}=[[x]]|{nm}=''y''{close}"]
     return docs
 
 
